@@ -33,3 +33,23 @@ Definition c16_check (s : sexp) : sexp :=
     end
   | _ => SL [SA "undecodable"%string]
   end.
+
+(* Entry point c16f: ((items of producer 0) (items of producer 1) ...) ((producer value) ...) -> ok / bad:
+   the verdict [fanin_ok] of Chan/FanIn.v on what the consumer of a fan-in program collected. *)
+From Anko Require Import Chan.FanIn.
+
+Definition dec_msg (s : sexp) : option msg :=
+  match s with
+  | SL [p; v] => match as_nat p, as_Z v with Some p, Some v => Some (p, v) | _, _ => None end
+  | _ => None
+  end.
+
+Definition c16f_check (s : sexp) : sexp :=
+  match s with
+  | SL [items; collected] =>
+    match as_list (as_list as_Z) items, as_list dec_msg collected with
+    | Some items, Some collected => SL [SA (if fanin_ok items collected then "ok" else "bad")%string]
+    | _, _ => SL [SA "undecodable"%string]
+    end
+  | _ => SL [SA "undecodable"%string]
+  end.
